@@ -27,7 +27,8 @@ RULE = ("E2: breadth-first search over operation histories of real Bec2File obje
         "in the history. E1 ('splice', ...): every ordered pair of block kinds x key pairs K1 != K2 (4 key classes, plus keys differing in each single bit) spliced into one header (body MACed with "
         "either): rejected with both decryptors, accepted with one decryptor iff the body matches that block's key; ('multisplice', ...) headers of 2..3 blocks INCLUDING several blocks of the same tag (two ECC blocks for different selectors, two customer-key blocks, ...) x every assignment of two keys: accepted exactly when all blocks agree."
         " Spliced headers are read with and without MAC checking (agreement of the blocks does not depend on it); the caller's encryptor lists start with the selector-2 entry so that selector 0 is never matched by position."
-        ' TLA+ cross-check: models/bec2header.tla describes the header reader as a state machine (blocks in file order, decrypt where a decryptor exists, agreed key, mismatch / no key / bad MAC / accepted); TLC enumerates EVERY behaviour (all headers of up to 2 blocks, thorough 3, over {cust, ecc, upd} x {k1, k2}, every decryptor subset, both body keys) and each one is replayed on the real reader with reference-built headers and decryptor subclasses that record their calls: outcome, session key and the order of decrypt calls must conform.')
+        ' TLA+ cross-check: models/bec2header.tla describes the header reader as a state machine (blocks in file order, decrypt where a decryptor exists, agreed key, mismatch / no key / bad MAC / accepted); TLC enumerates EVERY behaviour (all headers of up to 2 blocks, thorough 3, over {cust, ecc, upd} x {k1, k2}, every decryptor subset, both body keys) and each one is replayed on the real reader with reference-built headers and decryptor subclasses that record their calls: outcome, session key and the order of decrypt calls must conform.'
+        " ('recipients', sequence): several files written in ONE process to different key pairs of the SAME selector (explicit A, explicit B, published default) - each file's blocks must wrap that file's key for that file's recipient; multisplice headers are also read with the decryptors given as a one-shot iterator.")
 ASSUMPTIONS = [
     "canonical-state merging assumes operations depend only on the hashed fields plus the randomness stream; hidden library-global state is still "
     "caught because every check is phrased per transition (draws consumed by this operation, points new in this history)",
